@@ -554,7 +554,7 @@ func (vc *VC) appendOp(cc *ssa.CallCommon, h *Heap) []string {
 	// fresh object for the reallocation case
 	pre := h.clone()
 	dynB, _ := vc.backingType(cc.Args[0].Type())
-	o := vc.alloc(h, vc.curR, dynB)
+	o := vc.alloc(h, vc.curR, dynB, cc.Args[0].Type())
 	ncap := vc.declare(vc.fresh("appcap"), "Int")
 	vc.assume("(and (>= " + ncap + " " + newLen + ") (<= " + ncap + " " + maxLen + "))")
 	res := vc.define("append", "Slice", ite(fits,
